@@ -73,7 +73,7 @@ def numeric_text(rng, t):
     base = rng.choice([10, 10, 10, 16, 8])
     k = rng.random()
     if k < 0.5:
-        v = rng.choice([lo, lo - 1, lo + 1, hi, hi + 1, hi - 1, 0, 1, -1, 2**31, 2**32, 2**63, 2**64, 2**64 + 1, -2**63 - 1, 10**30])
+        v = rng.choice([lo, lo - 1, lo + 1, hi, hi + 1, hi - 1, 0, 1, -1, 2**31, 2**31 - 1, 2**32, 2**32 - 1, 2**63, 2**63 - 1, 2**64, 2**64 - 1, 2**64 + 1, -2**63 - 1, -2**31, -2**31 - 1, 10**30])
     elif k < 0.8: v = rng.randint(lo - 5, hi + 5) if rng.random() < 0.5 else rng.randint(-100, 100)
     else: v = rng.randint(-10**40, 10**40)
     mag = abs(v)
@@ -158,7 +158,8 @@ def generate(ctx):
         if k < 0.5: out.append({"t": t, "op": rng.choice(["p", "p", "P"]), "arg": hexs(numeric_text(rng, t))})
         elif k < 0.8:
             lo, hi = RANGES[t]
-            v = rng.choice([lo, lo + 1, hi, hi - 1, 0, 1, -1 if lo < 0 else 2, 2**31 - 1, 2**31 if hi >= 2**31 else 5, rng.randint(lo, hi)])
+            cand = [lo, lo + 1, hi, hi - 1, 0, 1, -1 if lo < 0 else 2, rng.randint(lo, hi)] + [b for b in (2**15 - 1, 2**16 - 1, 2**31 - 1, 2**31, 2**32 - 1, 2**32, 2**63 - 1, 2**63, -2**31, -2**31 - 1) if lo <= b <= hi]   # the extreme values of EVERY width: one type's 'max' spelling must not leak into a wider one
+            v = rng.choice(cand)
             out.append({"t": t, "op": "w", "arg": str(v)})
         elif k < 0.86: out.append({"t": "bool", "op": "p", "arg": hexs(rng.choice([b"1", b"0", b"no", b"on", b"yes", b"off", b"true", b"false", b"maybe", b"", b"truex", b"10", b"t"]))})
         elif k < 0.9: out.append({"t": "char", "op": "p", "arg": hexs(rng.choice([b"a", b"\\t", b"\\n", b"\\v", b"\\", b"\\x", b"", b"ab", bytes([rng.randint(1, 255)])]))})
